@@ -30,6 +30,15 @@ Proof.
     + inversion H; subst. apply le_n.
 Qed.
 
+Lemma span_forall p l : forall a b, span p l = (a, b) -> forallb p a = true.
+Proof.
+  induction l as [|c r IH]; intros a b H; cbn [span] in H.
+  - inversion H; reflexivity.
+  - destruct (p c) eqn:E.
+    + destruct (span p r) as [a' b'] eqn:E2. inversion H; subst. cbn [forallb]. rewrite E. exact (IH _ _ eq_refl).
+    + inversion H; reflexivity.
+Qed.
+
 Lemma after_lf_length l : forall r, after_lf l = Some r -> (length r < length l)%nat.
 Proof.
   induction l as [|c t IH]; intros r H; cbn [after_lf] in H; [discriminate|].
@@ -42,17 +51,33 @@ Lemma skipn_length {A} n (l : list A) : (length (skipn n l) <= length l)%nat.
 Proof. rewrite skipn_length. lia. Qed.
 
 (* ------------------------------------------------------------------ the string-buffer invariant *)
+(* well-formed token payloads: a number token is a non-empty run of digits and dots (its own text, which is what
+   _strtolong / _strtodouble later read), a string token holds no NUL byte *)
+Definition num_char (b : byte) : bool := is_digit b || N.eqb b 46.
+Definition tok_wf (t : token) : Prop :=
+  match t with
+  | TNum s => s <> [] /\ forallb num_char s = true
+  | TStr s => forallb (fun b => negb (N.eqb b 0)) s = true
+  | _ => True
+  end.
+
 Definition sinv (st : lstate) : Prop :=
-  l_idx st <= string_buf_size - string_slack /\ l_maxidx st < string_buf_size.
+  l_idx st <= string_buf_size - string_slack /\ l_maxidx st < string_buf_size /\ Forall tok_wf (l_out st).
 
 Lemma sinv_init : sinv lex_init.
-Proof. split; [apply N.leb_le | apply N.ltb_lt]; reflexivity. Qed.
+Proof. split; [apply N.leb_le; reflexivity | split; [apply N.ltb_lt; reflexivity | constructor]]. Qed.
 
 Lemma sinv_set_sc st sc : sinv st -> sinv (set_sc st sc).
-Proof. intros [H1 H2]; split; assumption. Qed.
+Proof. intros (H1 & H2 & H3); repeat split; assumption. Qed.
 
-Lemma sinv_emit st t : sinv st -> sinv (emit st t).
-Proof. intros [H1 H2]; split; assumption. Qed.
+Lemma sinv_emit st t : tok_wf t -> sinv st -> sinv (emit st t).
+Proof. intros W (H1 & H2 & H3); repeat split; try assumption. cbn [emit l_out]. constructor; assumption. Qed.
+
+Lemma digits_num l : forallb is_digit l = true -> forallb num_char l = true.
+Proof.
+  induction l as [|c r IH]; cbn [forallb]; [reflexivity|]. intros H. apply andb_true_iff in H as [H1 H2].
+  unfold num_char at 1. rewrite H1, (IH H2). reflexivity.
+Qed.
 
 Lemma sb_add_spec st b :
   sinv st ->
@@ -61,15 +86,16 @@ Lemma sb_add_spec st b :
   | inr e => e = EndExit S_STR_TOOLONG
   end.
 Proof.
-  intros [H1 H2]. unfold sb_add. rewrite gen_string_checked. cbn [andb].
+  intros (H1 & H2 & H3). unfold sb_add. rewrite gen_string_checked. cbn [andb].
   destruct (string_buf_size - string_slack <=? l_idx st) eqn:E; [reflexivity|].
   apply N.leb_gt in E.
   destruct gen_string_slack as [S1 S2].
   destruct (string_buf_size <=? l_idx st) eqn:E2.
   - apply N.leb_le in E2. lia.
-  - split; [|reflexivity]. split; cbn [l_idx l_maxidx].
+  - split; [|reflexivity]. repeat split; cbn [l_idx l_maxidx l_out].
     + lia.
     + apply N.max_lub_lt; [assumption | lia].
+    + assumption.
 Qed.
 
 Lemma sb_add_list_spec l : forall st,
@@ -88,12 +114,15 @@ Qed.
 
 Lemma sb_finish_spec st : sinv st -> exists st', sb_finish st = inl st' /\ sinv st'.
 Proof.
-  intros [H1 H2]. unfold sb_finish. destruct gen_string_slack as [S1 S2].
+  intros (H1 & H2 & H3). unfold sb_finish. destruct gen_string_slack as [S1 S2].
   destruct (string_buf_size <=? l_idx st) eqn:E.
   - apply N.leb_le in E. lia.
-  - eexists; split; [reflexivity|]. split; cbn [l_idx l_maxidx].
+  - eexists; split; [reflexivity|]. repeat split; cbn [l_idx l_maxidx l_out].
     + lia.
     + apply N.leb_gt in E. apply N.max_lub_lt; [assumption | lia].
+    + constructor; [|assumption]. cbn [tok_wf]. unfold until_nul.
+      destruct (span (fun b => negb (N.eqb b 0)) (rev (l_buf st))) as [a b] eqn:E2. cbn [fst].
+      eapply span_forall; eassumption.
 Qed.
 
 (* ------------------------------------------------------------------ one flex match *)
@@ -151,37 +180,45 @@ Qed.
 Lemma step_init_good st c rest : sinv st -> step_good rest (step_init st c rest).
 Proof.
   intros H. unfold step_init.
+  assert (U : step_good rest (StCont (emit st TUnrec) rest)).
+  { cbn [step_good]. split; [apply sinv_emit; [exact I | assumption] | apply le_n]. }
   destruct (N.eqb c 35).
-  { destruct (after_lf rest) as [r|] eqn:E; cbn [step_good].
-    - split; [assumption|]. apply after_lf_length in E. lia.
-    - split; [apply sinv_emit; assumption | apply le_n]. }
+  { destruct (after_lf rest) as [r|] eqn:E; [|exact U]. cbn [step_good].
+    split; [assumption|]. apply after_lf_length in E. lia. }
   destruct (is_blank c || N.eqb c 13 || N.eqb c 10).
   { cbn [step_good]. split; [assumption | apply le_n]. }
-  destruct (is_digit c).
+  destruct (is_digit c) eqn:Dc.
   { destruct (span is_digit rest) as [ds r1] eqn:E1. pose proof (span_length _ _ _ _ E1) as L1.
+    pose proof (digits_num _ (span_forall _ _ _ _ E1)) as F1.
+    assert (W1 : tok_wf (TNum (c :: ds))).
+    { cbn [tok_wf]. split; [discriminate|]. cbn [forallb]. unfold num_char at 1. rewrite Dc, F1. reflexivity. }
     destruct r1 as [|dot r2].
     - cbn [step_good]. split; [apply sinv_emit; assumption | assumption].
     - destruct (N.eqb dot 46).
       + destruct (span is_digit r2) as [fs r3] eqn:E2. pose proof (span_length _ _ _ _ E2) as L2.
-        cbn [step_good]. split; [apply sinv_emit; assumption|]. cbn [length] in L1. lia.
+        pose proof (digits_num _ (span_forall _ _ _ _ E2)) as F2.
+        cbn [step_good]. split; [|cbn [length] in L1; lia].
+        apply sinv_emit; [|assumption]. cbn [tok_wf]. split; [discriminate|].
+        cbn [forallb]. unfold num_char at 1. rewrite Dc. cbn [orb andb]. rewrite forallb_app, F1. cbn [forallb andb].
+        rewrite F2. reflexivity.
       + cbn [step_good]. split; [apply sinv_emit; assumption | assumption]. }
   destruct (N.eqb c 46).
-  { destruct rest as [|d r0].
-    - cbn [step_good]. split; [apply sinv_emit; assumption | apply le_n].
-    - destruct (is_digit d).
-      + destruct (span is_digit (d :: r0)) as [fs r] eqn:E. pose proof (span_length _ _ _ _ E) as L.
-        cbn [step_good]. split; [apply sinv_emit; assumption | assumption].
-      + cbn [step_good]. split; [apply sinv_emit; assumption | apply le_n]. }
-  destruct (N.eqb c 36). { cbn [step_good]. split; [apply sinv_emit; assumption | apply le_n]. }
+  { destruct rest as [|d r0]; [exact U|].
+    destruct (is_digit d); [|exact U].
+    destruct (span is_digit (d :: r0)) as [fs r] eqn:E. pose proof (span_length _ _ _ _ E) as L.
+    pose proof (digits_num _ (span_forall _ _ _ _ E)) as F.
+    cbn [step_good]. split; [|assumption]. apply sinv_emit; [|assumption].
+    cbn [tok_wf]. split; [discriminate|]. cbn [forallb]. rewrite F. reflexivity. }
+  destruct (N.eqb c 36). { cbn [step_good]. split; [apply sinv_emit; [exact I | assumption] | apply le_n]. }
   destruct (N.eqb c 34).
-  { cbn [step_good]. split; [|apply le_n]. destruct H as [H1 H2]. split; cbn [l_idx l_maxidx]; [apply N.le_0_l | assumption]. }
-  destruct (N.eqb c 123). { cbn [step_good]. split; [apply sinv_emit; assumption | apply le_n]. }
-  destruct (N.eqb c 125). { cbn [step_good]. split; [apply sinv_emit; assumption | apply le_n]. }
-  destruct (N.eqb c 61). { cbn [step_good]. split; [apply sinv_emit; assumption | apply le_n]. }
-  destruct (longest_word (c :: rest)) as [[[|n] w]|]; cbn [step_good].
-  - split; [apply sinv_emit; assumption | apply le_n].
-  - destruct w; cbn [step_good]; (split; [first [apply sinv_emit; assumption | apply sinv_set_sc; assumption] | apply skipn_length]).
-  - split; [apply sinv_emit; assumption | apply le_n].
+  { cbn [step_good]. split; [|apply le_n]. destruct H as (H1 & H2 & H3).
+    repeat split; cbn [l_idx l_maxidx l_out]; [apply N.le_0_l | assumption | assumption]. }
+  destruct (N.eqb c 123). { cbn [step_good]. split; [apply sinv_emit; [exact I | assumption] | apply le_n]. }
+  destruct (N.eqb c 125). { cbn [step_good]. split; [apply sinv_emit; [exact I | assumption] | apply le_n]. }
+  destruct (N.eqb c 61). { cbn [step_good]. split; [apply sinv_emit; [exact I | assumption] | apply le_n]. }
+  destruct (longest_word (c :: rest)) as [[[|n] w]|]; try exact U.
+  destruct w; cbn [step_good];
+    (split; [first [apply sinv_emit; [exact I | assumption] | apply sinv_set_sc; assumption] | apply skipn_length]).
 Qed.
 
 Lemma step_good_all st c rest : sinv st -> step_good rest (step st c rest).
@@ -231,7 +268,8 @@ Proof.
     intros Lt st1 bs1 H1. apply IH; [lia | lia | assumption].
 Qed.
 
-Lemma lex_run_good files main : sinv (fst (lex_run files main)) /  (snd (lex_run files main) = EndEOF \/ exists s, snd (lex_run files main) = EndExit s).
+Lemma lex_run_good files main : sinv (fst (lex_run files main)) /\
+  (snd (lex_run files main) = EndEOF \/ exists s, snd (lex_run files main) = EndExit s).
 Proof.
   unfold lex_run.
   pose proof (lex_file_good files lex_depth 0 ltac:(unfold lex_depth; lia) ltac:(apply N.le_0_l) lex_init main sinv_init) as G.
@@ -250,11 +288,23 @@ Proof.
   destruct G as [-> | [s ->]]; [left | right]; eexists; reflexivity.
 Qed.
 
+Lemma lex_all_end_ok files main : snd (lex_all files main) = EndEOF \/ exists s, snd (lex_all files main) = EndExit s.
+Proof.
+  unfold lex_all. destruct (lex_run_good files main) as [_ G]. destruct (lex_run files main) as [st e]; exact G.
+Qed.
+
 (* every index of string_buf the lexer stores into -- including the terminating NUL of the closing quote -- is
    below the capacity read from the current source *)
 Theorem string_bound : forall (files : text -> option text) (main : text),
   l_maxidx (fst (lex_run files main)) < string_buf_size /\
   l_idx (fst (lex_run files main)) <= string_buf_size - string_slack.
 Proof.
-  intros files main. destruct (lex_run_good files main) as [[H1 H2] _]. split; assumption.
+  intros files main. destruct (lex_run_good files main) as [(H1 & H2 & H3) _]. split; assumption.
+Qed.
+
+(* payloads of the tokens handed to the parser *)
+Theorem tokens_wf : forall (files : text -> option text) (main : text), Forall tok_wf (fst (lex_all files main)).
+Proof.
+  intros files main. unfold lex_all. destruct (lex_run_good files main) as [(H1 & H2 & H3) _].
+  destruct (lex_run files main) as [st e]; cbn [fst] in *. apply Forall_rev. assumption.
 Qed.
